@@ -180,6 +180,58 @@ Definition party_start (bind : bool) (e : env) (future : list msg) : pstate * li
 Definition party_final_from (bind : bool) (e : env) (future ms : list msg) : pstate :=
   fold_left (fun ps m => fst (party_step bind e ps m)) ms (fst (fst (party_start bind e future))).
 
+(* ---- before the round: Processor.OnMessageVerify / OnMessageCast / waitUntilDone
+   (processor_party.go) for the block with hash [e_bh e] ----
+   A verify message is routed by its BlockHash field: to the party registered under that hash if there
+   is one, dropped if that hash is in the finished-party cache, otherwise kept in the future-message
+   cache.  The cast message creates the party; when round0's checks pass ([ok]) the party announces the
+   block hash, is re-registered under it and the kept messages are handed to it, each in its own
+   goroutine (order [drain]); the round starts with no stored message of its own.  A party that ended
+   (done, error) is retired into the finished-party cache: nothing reaches it any more, which is what
+   [party_step] does in the phases Finished/Closed.  [EvTimeout] is the 10 s timer of waitUntilDone;
+   [EvEvict] is the future-message cache (an LRU over 50 block hashes) dropping this block's entry. *)
+Inductive event := EvVerify (bh : M) (m : msg) | EvCast (ok : bool) | EvTimeout | EvEvict.
+
+Record proc := Proc { pr_party : option pstate; pr_done : bool; pr_store : list msg }.
+
+Definition proc_init : proc := Proc None false [].
+
+Variable drain : list msg -> list msg.
+
+Definition proc_step (bind : bool) (e : env) (pc : proc) (ev : event) : proc :=
+  match ev with
+  | EvVerify bh m =>
+      if negb (meq bh (e_bh e)) then pc else
+      match pr_party pc with
+      | Some ps => Proc (Some (fst (party_step bind e ps m))) (pr_done pc) (pr_store pc)
+      | None => if pr_done pc then pc else Proc None false (pr_store pc ++ [m])
+      end
+  | EvCast ok =>
+      match pr_party pc with
+      | Some _ => pc
+      | None =>
+          if pr_done pc then pc else
+          if ok then
+            Proc (Some (fold_left (fun ps m => fst (party_step bind e ps m)) (drain (pr_store pc))
+                                  (fst (fst (party_start bind e [])))))
+                 false []
+          else pc
+      end
+  | EvTimeout =>
+      match pr_party pc with
+      | Some ps =>
+          match p_phase ps with
+          | Collecting => Proc (Some (PState Closed (p_st ps))) true (pr_store pc)
+          | _ => pc
+          end
+      | None => pc
+      end
+  | EvEvict => Proc (pr_party pc) (pr_done pc) []
+  end.
+
+Definition proc_run (bind : bool) (e : env) (evs : list event) : proc :=
+  fold_left (proc_step bind e) evs proc_init.
+
 End Round.
 
 (* ---- instance: integers modulo q, messages named by their index in a table of logarithms ---- *)
@@ -199,3 +251,8 @@ Definition zparty_start (q : Z) (hs : list Z) (bind : bool) (e : @env Z nat) (fu
 Definition zparty_run_from (q : Z) (hs : list Z) (bind : bool) (e : @env Z nat) (ps : @pstate Z)
   (ms : list (@msg Z nat)) :=
   party_run (zq q) Z.eqb (zveq q) (Z.eqb 0) (zvz q) Nat.eqb (zH hs) zsel bind e ps ms.
+
+(* the final party state of the run Harness.check evaluates: stored messages [fut] replayed at the
+   start of the round, then the messages [ms] *)
+Definition zmodel_final (q : Z) (hs : list Z) (bind : bool) (e : @env Z nat) (fut ms : list (@msg Z nat)) : @pstate Z :=
+  fst (zparty_run_from q hs bind e (fst (fst (zparty_start q hs bind e fut))) ms).
